@@ -347,7 +347,8 @@ c06 = with_shared(_c06, [(_c08, {'C08.c': 'C06.j'}, 'the location reported at a 
                          (_c05, {'C05.d': 'C06.h'}, 'resuming is a loop of single steps that returns at the first step that reports a stop, and not before'),
                          (_c05, {'C05.b': 'C06.f'}, 'break handlers advance by exactly one instruction, so no site is skipped and the location lookup finds the site just passed'),
                          (_c08, {'C08.a': 'C06.g', 'C08.b': 'C06.g2'}, 'the site armed for a location is the marker emitted for that location and line_info names the same location for it, so a stop is reported at the line that was enabled')])
-c07 = with_shared(_c07, [(c14, {'C14.S4': 'C07.u'}, 'the line reported at a stop is the line of the statement in the file as supplied: the scanner reads the content unmodified'),
+c07 = with_shared(_c07, [(_c06, {'C06.m': 'C07.v'}, 'stepping a copy of a machine steps like the original: hand-written copy operations of VM transfer the stepping flag and every other field'),
+                         (c14, {'C14.S4': 'C07.u'}, 'the line reported at a stop is the line of the statement in the file as supplied: the scanner reads the content unmodified'),
                          (c18, {'C18.P2': 'C07.q'}, 'a variable view shows this activation only: the accessor keeps nothing from an earlier call'),
                          (_c04, {'C04.e': 'C07.s'}, 'the lines a run visits are those of its own routine: marks are kept per routine (a fresh table for every routine), so a jump never lands in another program'),
                          (_c08, {'C08.c': 'C07.t'}, 'the location reported at a stop is a line of the program: listing or querying a program adds no entries to the site table'),
